@@ -739,24 +739,28 @@ package geometry
 //@   ensures !polyHolesValid(P, k)
 //@   induction k
 
+// structural part of the polygon invariant (enough for panic freedom of Valid / Empty / Rect / Clockwise)
+//@ spec func PolyShapeW(P *Poly) bool opaque {
+//@     P != nil && (polyExt(P) != nil ==> SeriesInv(polyExt(P))) &&
+//@     (forall h int :: 0 <= h && h < polyNHoles(P) ==> polyHole(P,h) != nil && SeriesInv(polyHole(P,h))) }
 //@ func Poly.Valid
 //@   props C11
 //@   ret use holesValidWitness(poly, $i, polyNHoles(poly))
-//@   requires poly != nil && PolyInv(poly) && polyExt(poly) != nil
+//@   requires poly != nil && polyExt(poly) != nil && (PolyInv(poly) || PolyShape(poly) || PolyShapeW(poly))
 //@   ensures result == (sValid(polyExt(poly)) && polyHolesValid(poly, polyNHoles(poly)))
 //@   loop 0 invariant polyHolesValid(poly, $i)
 //@   loop 0 assert polyHole(poly, $i) == hole
 //@ func Poly.Empty
 //@   props C11
-//@   requires poly != nil ==> PolyInv(poly)
+//@   requires poly != nil ==> (PolyInv(poly) || PolyShape(poly) || PolyShapeW(poly))
 //@   ensures result == (poly == nil || polyExt(poly) == nil || sEmpty(polyExt(poly)))
 //@ func Poly.Rect
 //@   props C11
-//@   requires poly != nil ==> PolyInv(poly)
+//@   requires poly != nil ==> (PolyInv(poly) || PolyShape(poly) || PolyShapeW(poly))
 //@   ensures result == ite(poly == nil || polyExt(poly) == nil, mkRect(mkPoint(0,0), mkPoint(0,0)), sRect(polyExt(poly)))
 //@ func Poly.Clockwise
 //@   props C18
-//@   requires poly != nil ==> PolyInv(poly)
+//@   requires poly != nil ==> (PolyInv(poly) || PolyShape(poly) || PolyShapeW(poly))
 //@   ensures result == (poly != nil && polyExt(poly) != nil && sClockwise(polyExt(poly)))
 
 // ---------------------------------------------------------------- C04: number encoding of the compressed indexes
